@@ -1283,6 +1283,12 @@ func checkSliceOwnership(e *Engine, r *Report, owned []*ssa.Function, ee *Effect
 				// the repository's own key-prefix variables are one-element literals (cap == len): append always copies
 				if u, ok := resolveLocal(base).(*ssa.UnOp); ok {
 					if g, isG := u.X.(*ssa.Global); isG && g.Pkg != nil && e.RepoOwned(g.Pkg.Pkg.Path()) {
+						if globalSliceIsTight(g) {
+							continue
+						}
+						cnt++
+						key := "append onto package-level slice › " + fnKey(f) + " › " + g.Name()
+						r.Check(false, key, e.Pos(c.Pos()), "", "elements are appended onto the package-level slice "+g.Name()+", which is not initialised by a plain composite literal (cap == len): with spare capacity every append writes into the one backing array shared by all goroutines — block execution and concurrently served queries overwrite each other's keys, so results depend on scheduling")
 						continue
 					}
 				}
@@ -1306,4 +1312,46 @@ func checkSliceOwnership(e *Engine, r *Report, owned []*ssa.Function, ee *Effect
 			r.Check(false, key, e.Pos(c.Pos()), "", "elements are appended onto a slice owned by a dependency ("+o+"): when that slice has spare capacity (e.g. go-ethereum's PrecompiledAddressesBerlin: len 9, cap 16) the write lands in memory shared by all executions of the process, including the concurrent CheckTx and FinalizeBlock goroutines — the values read back can be another execution's")
 		}
 	}
+}
+
+// globalSliceIsTight: the package-level slice variable is initialised (in its package's init) by a composite literal
+// `[]T{…}` — SSA: a full slice `arr[:]` of a freshly allocated array — and never assigned elsewhere, so cap == len and append
+// always copies.
+func globalSliceIsTight(g *ssa.Global) bool {
+	n := 0
+	ok := true
+	for _, mem := range g.Pkg.Members {
+		fn, isFn := mem.(*ssa.Function)
+		if !isFn {
+			continue
+		}
+		fs := append([]*ssa.Function{fn}, fn.AnonFuncs...)
+		for _, f := range fs {
+			allInstrs(f, false, func(_ *ssa.Function, _ *ssa.BasicBlock, in ssa.Instruction) {
+				st, isSt := in.(*ssa.Store)
+				if !isSt || st.Addr != ssa.Value(g) {
+					return
+				}
+				n++
+				if f.Name() != "init" {
+					ok = false
+					return
+				}
+				sl, isSl := st.Val.(*ssa.Slice)
+				if !isSl || sl.Low != nil || sl.High != nil || sl.Max != nil {
+					ok = false
+					return
+				}
+				a, isA := sl.X.(*ssa.Alloc)
+				if !isA {
+					ok = false
+					return
+				}
+				if _, isArr := a.Type().(*types.Pointer).Elem().Underlying().(*types.Array); !isArr {
+					ok = false
+				}
+			})
+		}
+	}
+	return ok && n == 1
 }
